@@ -227,6 +227,24 @@ namespace photon
         }
     }
 
+#ifdef PHOTON_VERIF
+    // verification hook (lockset engine): reports spinlock acquire/release and
+    // selected shared-state accesses to an installed callback; absent otherwise.
+    enum photon_verif_ls_id {
+        LS_LOCK_ACQ = 1, LS_LOCK_REL = 2,
+        LS_WAITQ_PUSH = 10, LS_WAITQ_ERASE = 11,
+        LS_TH_SLEEP = 12, LS_TH_DEQUEUE = 13, LS_TH_INTERRUPT = 14, LS_TH_TIMEOUT = 15,
+        LS_TH_DONE = 16, LS_STANDBY_PUSH = 17, LS_STANDBY_DRAIN = 18,
+        LS_MUTEX_HANDOFF = 20, LS_SEM_ADD = 21, LS_SEM_SUB = 22, LS_RWLOCK_STATE = 23,
+    };
+    extern "C" __attribute__((weak)) void (*photon_verif_ls_cb)(int id, const void* obj, const void* l1, const void* l2);
+    // (id, object accessed, the lock(s) that the code's own rules say protect this access)
+    #define PHOTON_VERIF_LS(id, obj, l1, l2) do { if (&photon_verif_ls_cb && photon_verif_ls_cb) \
+        photon_verif_ls_cb((id), (const void*)(obj), (const void*)(l1), (const void*)(l2)); } while(0)
+#else
+    #define PHOTON_VERIF_LS(id, obj, l1, l2) do {} while(0)
+#endif
+
     class spinlock {
     public:
         int lock() {
@@ -238,9 +256,14 @@ namespace photon
                     if (delay < max_delay) delay <<= 1;
                 } while (likely(load()));
             }
+            PHOTON_VERIF_LS(LS_LOCK_ACQ, this, 0, 0);
             return 0;
         }
         int try_lock() {
+#ifdef PHOTON_VERIF
+            if (likely(!load()) && likely(!xchg())) { PHOTON_VERIF_LS(LS_LOCK_ACQ, this, 0, 0); return 0; }
+            return -1;
+#endif
             return (likely(!load()) &&
                     likely(!xchg())) ? 0 : -1;
         }
@@ -248,6 +271,7 @@ namespace photon
             return _lock;
         }
         void unlock() {
+            PHOTON_VERIF_LS(LS_LOCK_REL, this, 0, 0);
             _lock.store(false, std::memory_order_release);
         }
     protected:
@@ -514,6 +538,7 @@ namespace photon
         int signal(uint64_t count) {
             if (count == 0) return 0;
             SCOPED_LOCK(splock);
+            PHOTON_VERIF_LS(LS_SEM_ADD, this, &splock, 0);
             auto cnt = m_count.fetch_add(count) + count;
             try_resume(cnt);
             return 0;
